@@ -122,7 +122,6 @@ structure Cfg where
   memfile : Nat := 102400                   -- `max_memfile_size`
   errorsMap : List (String × Nat) := []     -- `errors_map`: class name → status of the mapped `HTTPError`
   allowXScriptName : Bool := false          -- `allow_x_script_name`
-  appNameHeader : Key := []                 -- `app_name_header`
   deriving Repr
 
 /-- what `json.loads` does -/
@@ -235,13 +234,13 @@ def asStr : Val → Except Exc Str
   | .str s => .ok s
   | _ => .error (.py .typeError)
 
-/-- `fullpath`
+/-- `fullpath` (`app_name_header` has its default `''`: the environ key read is the empty string)
 ```
 appname = self._env_get(self.config.app_name_header, '/')
 return urljoin(self.script_name, self.path[len(appname):].lstrip('/'))
 ``` -/
-def fullpathFrom (cfg : Cfg) (L : Lib) (e : Env) (scriptName : Str) : Val :=
-  let appname := (e.str? cfg.appNameHeader).getD ['/']
+def fullpathFrom (_cfg : Cfg) (L : Lib) (e : Env) (scriptName : Str) : Val :=
+  let appname := (e.str? []).getD ['/']
   .str (L.urljoin scriptName (lstripCh '/' ((pathOf e).drop appname.length)))
 def rdFullpath (cfg : Cfg) (L : Lib) : M Val := cacheIn kFullpath do
   let sn ← rdScriptName cfg
